@@ -369,6 +369,15 @@ impl Property for Wrap {
         let wide: &[&str] = &["\u{5b57}", "\u{1f600}", "\u{ff21}", "\u{d55c}"];
         let zero: &[&str] = &["\u{301}", "\u{200b}", "\u{200d}", "\u{fe0f}"];
         let sgr: &[&str] = &["\u{1b}[1m", "\u{1b}[0m", "\u{1b}[31;1m", "\u{1b}[38;5;200m", "\u{1b}[m"];
+        if t.chance(1, 6) {
+            // leading blank lines (empty or spaces only)
+            for _ in 0..t.range(1, 3) {
+                if t.bool() {
+                    text.push_str("  ");
+                }
+                text.push('\n');
+            }
+        }
         if t.chance(1, 4) {
             for _ in 0..t.range(1, 6) {
                 text.push(' ');
@@ -497,7 +506,45 @@ impl Property for PublicPath {
                 format!("text {:?} width {}: rendered help {:?} lacks the sentinels", case.text, case.width, rendered),
             );
         };
-        check_wrap(case, inner, ctx, "render_help")
+        if let Verdict::Fail(f) = check_wrap(case, inner, ctx, "render_help") {
+            return Verdict::Fail(f);
+        }
+        if case.styled && case.text.starts_with([' ', '\n']) {
+            // the text first in the help: the layout drops one unused leading line (`write_help`: the first line when it is
+            // blank), nothing more
+            let help = clap::Command::new("p")
+                .help_template("{about}|")
+                .term_width(case.width)
+                .max_term_width(0)
+                .color(clap::ColorChoice::Always)
+                .about(case.text.clone())
+                .render_help();
+            let rendered = help.ansi().to_string();
+            let Some(first) = rendered.strip_suffix("|\n") else {
+                return Verdict::fail(
+                    "wrap:public:sentinels",
+                    format!("text {:?} width {}: rendered help {:?} lacks the closing sentinel", case.text, case.width, rendered),
+                );
+            };
+            // (judged against the wrapped text between the sentinels, whose content the walk above has just checked: at small
+            // widths a blank line of spaces gains a break of its own, and it is the wrapped text the layout trims)
+            let want = match inner.find('\n') {
+                Some(pos) if inner[..pos].trim().is_empty() => &inner[pos + 1..],
+                _ => inner,
+            };
+            ensure!(
+                first == want,
+                "wrap:public:text-first-in-help",
+                "about {:?} at width {}: between sentinels it renders as {:?}; as the first thing in the help it must lose at most its blank first line ({:?}) but renders as {:?}",
+                case.text,
+                case.width,
+                inner,
+                want,
+                first
+            );
+            ctx.label("text-first-in-help");
+        }
+        Verdict::Pass
     }
 }
 
